@@ -992,6 +992,17 @@ func (c *ConnTap) Describe(n int) []string {
 	}
 	var out []string
 	for _, d := range ds {
+		out = append(out, d.describe())
+	}
+	return out
+}
+
+// Text renders one datagram the way Describe does (the caller must not race with the wire: use it
+// from router hooks, which run synchronously with Emitted).
+func (d *DatagramInfo) Text() string { return d.describe() }
+
+func (d *DatagramInfo) describe() string {
+	{
 		s := fmt.Sprintf("%9.3fms %s #%d %dB", float64(d.Time)/1e6, d.Dir, d.Ordinal, len(d.Raw))
 		for _, p := range d.Packets {
 			s += fmt.Sprintf(" [%s pn=%d", p.Kind, p.PN)
@@ -1016,7 +1027,6 @@ func (c *ConnTap) Describe(n int) []string {
 			}
 			s += "]"
 		}
-		out = append(out, s)
+		return s
 	}
-	return out
 }
